@@ -47,6 +47,8 @@ def gen_cases(tier, rng):
     cases.append({"cls": "length-pairs", "cost": 1})
     from qrv import repotests
     cases.extend(repotests.gen_cases(tier))
+    for i in range(2 if tier == "quick" else 12):
+        cases.append({"cls": "rwa-in-context", "seed": int(rng.integers(1 << 30)), "cost": 3})
     for cut in (50.0, 100.0, 10.0) + tuple(r3(rng.uniform(5.0, 220.0)) for _ in range(3 if tier == "quick" else 40)):
         cases.append({"cls": "cutoff-arguments", "cut_cm": cut, "seed": int(rng.integers(1 << 30)), "cost": 6})
     npg = 150 if tier == "quick" else 1500
@@ -197,6 +199,73 @@ def run_case(case, ctx):
     if cls == "repo-tests":
         from qrv import repotests
         repotests.run_module(case, ctx, ("current_units", "_in_eu_count", "_in_energy_units_context"), "library-call-keeps-units", "frame-leaks-units:")
+        return
+
+    if cls == "rwa-in-context":
+        # the rotating-wave bookkeeping of a Hamiltonian is derived from units-managed data: whatever units are active when it is
+        # set, the stored block energies are the same, and what is read back under a unit is the conversion of that
+        from qrv.oracles.units import E_FAC
+        cm = E_FAC["1/cm"]
+        rng = numpy.random.default_rng(case["seed"])
+        dim = 6
+        e = numpy.sort(numpy.concatenate([[0.0, 30.0], 12000.0 + rng.uniform(0, 400, size=2), 24100.0 + rng.uniform(0, 500, size=2)])) * cm
+        Hd = numpy.diag(e)
+        Hd[2, 3] = Hd[3, 2] = 80.0 * cm
+        blocks = [0, 2, 4]
+
+        def stored(unit, depth):
+            H = qr.Hamiltonian(data=Hd.copy())
+            with contextlib.ExitStack() as st:
+                for k in range(depth):
+                    st.enter_context(qr.energy_units(["eV", "THz", "meV"][k % 3]))
+                if unit is not None:
+                    st.enter_context(qr.energy_units(unit))
+                H.set_rwa(blocks)
+            out = {"rwa_energies": numpy.array(H.rwa_energies, dtype=float), "skeleton[int]": numpy.array(H.get_RWA_skeleton(), dtype=float),
+                   "RWA_data[int]": numpy.array(H.get_RWA_data(), dtype=float)}
+            reads = {}
+            for u2 in ("1/cm", "eV", "THz"):
+                with qr.energy_units(u2):
+                    reads[u2] = numpy.array(H.get_RWA_skeleton(), dtype=float)
+            return out, reads
+        with ctx.lib("set_rwa in internal units"):
+            ref, ref_reads = stored(None, 0)
+        want = numpy.zeros(dim)
+        for b, (lo, hi) in enumerate(zip(blocks, blocks[1:] + [dim])):
+            want[lo:hi] = numpy.mean(e[lo:hi])
+        ctx.check("stored-value-context-independent", float(numpy.max(numpy.abs(ref["skeleton[int]"] - want))), RTOL * float(numpy.max(want)), {"accessor": "Hamiltonian.set_rwa / get_RWA_skeleton", "what": "block averages (internal units)"})
+        for unit in [u for u in EUNITS if u != "nm"]:
+            for depth in (0, 2):
+                try:
+                    with ctx.lib("set_rwa under " + unit):
+                        got, reads = stored(unit, depth)
+                except Exception as ex:
+                    if type(ex).__name__ == "LibRaised":
+                        continue
+                    raise
+                for k in ref:
+                    ctx.check("stored-value-context-independent", float(numpy.max(numpy.abs(got[k] - ref[k]))), RTOL * float(numpy.max(numpy.abs(ref[k]))) + 1e-300,
+                              {"accessor": "Hamiltonian.set_rwa", "unit": unit, "nesting_depth": depth, "what": k})
+                for u2, v in reads.items():
+                    ctx.check("accessor-conversion", float(numpy.max(numpy.abs(v - want / E_FAC[u2]))), RTOL * float(numpy.max(want / E_FAC[u2])),
+                              {"accessor": "get_RWA_skeleton", "u1": unit, "u2": u2, "what": "RWA energies set under u1, read under u2"})
+                ctx.sub(("rwa", unit, depth), nontrivial=True)
+        # the same through a molecule whose Hamiltonian exists already
+        for unit in ("1/cm", "eV"):
+            with ctx.lib("Molecule.set_electronic_rwa under " + unit):
+                res = []
+                for u in (None, unit):
+                    with qr.energy_units("1/cm"):
+                        mo = qr.Molecule([0.0, 12000.0, 24500.0])
+                    Hm = mo.get_Hamiltonian()
+                    with (qr.energy_units(u) if u else contextlib.nullcontext()):
+                        mo.set_electronic_rwa([0, 1, 2])
+                    Hm2 = mo.get_Hamiltonian()
+                    res.append(numpy.array(Hm2.get_RWA_skeleton(), dtype=float))
+            ctx.check("stored-value-context-independent", float(numpy.max(numpy.abs(res[0] - res[1]))), RTOL * float(numpy.max(numpy.abs(res[0]))) + 1e-300,
+                      {"accessor": "Molecule.set_electronic_rwa after get_Hamiltonian", "unit": unit})
+        ctx.key(("rwa", case["seed"]))
+        ctx.nontrivial(True)
         return
 
     if cls == "cutoff-arguments":
